@@ -83,9 +83,10 @@ def run(seed):
         return 0
     t0 = time.time()
     # (program seed, size of the large frames, number of Miri seeds): one batch above the 16 KiB mark, two small ones
-    # program seed mod 4 selects the mix of muxers (1: all convert Annex B, 2: AV1 / VP9, 3: one fragmented, 0: free)
+    # program seed mod 4 selects the mix of muxers (1: all convert Annex B + AAC with and without CRC, 2: AV1 / VP9,
+    # 3: one fragmented, 0: free); mod 8 == 7: a swarm of twelve fragmented muxers with distinct configurations
     configs = [(seed * 1000 + 1, 17000, 24), (seed * 1000 + 2, 17000, 8), (seed * 1000 + 3, 17000, 8), (seed * 1000 + 5, 600, 48),
-               (seed * 1000 + 6, 900, 32), (seed * 1000 + 7, 600, 32), (seed * 1000 + 4, 900, 24), (seed * 1000 + 9, 70000, 8)]
+               (seed * 1000 + 6, 900, 32), (seed * 1000 + 7, 300, 24), (seed * 1000 + 4, 900, 24), (seed * 1000 + 9, 70000, 8)]
     total = 0
     for prog, big, n in configs:
         ref = native_reference(prog, big)
